@@ -27,9 +27,13 @@ def run_one(prop, tier, path, old, new, desc, extra_env=None):
         if path is not None:
             fp = os.path.join(tmp, path)
             src = open(fp).read()
-            if src.count(old) < 1:
-                return "STALE", 0.0, "pattern not found"
-            open(fp, "w").write(src.replace(old, new, 1))
+            olds = old if isinstance(old, (list, tuple)) else [old]
+            news = new if isinstance(new, (list, tuple)) else [new]
+            for o, nw in zip(olds, news):
+                if src.count(o) < 1:
+                    return "STALE", 0.0, "pattern not found: %r" % o[:60]
+                src = src.replace(o, nw, 1)
+            open(fp, "w").write(src)
         env = dict(os.environ, VERIF_REPO=tmp, VERIF_EVIDENCE_DIR=os.path.join(tmp, "ev"),
                    VERIF_REPLAY_DIR=os.path.join(tmp, "rp"), PYTHONDONTWRITEBYTECODE="1")
         env.update(extra_env or {})
